@@ -5,6 +5,8 @@ import (
 	"flag"
 	"fmt"
 	"os"
+	"runtime"
+	"runtime/debug"
 	"sort"
 	"strings"
 	"time"
@@ -266,6 +268,9 @@ func cmdRun(args []string) int {
 }
 
 func main() {
+	// many small heaps + 16 cores make the Go runtime thrash in this VM
+	runtime.GOMAXPROCS(3)
+	debug.SetGCPercent(400)
 	if len(os.Args) < 2 {
 		fmt.Fprintln(os.Stderr, "usage: gosym run|check|selftest ...")
 		os.Exit(2)
